@@ -71,7 +71,7 @@ func (e *Exec) heap(s *State, name, sortS string) *Node {
 	}
 	if s.epoch > 0 && !e.v.immutableHeap(name) {
 		// first touched after a call that may have changed everything: unrelated to the entry heap
-		h := TS.Const(fmt.Sprintf("heapE%d:%s", s.epoch, sanitize(name)), sortS)
+		h := TS.Const(fmt.Sprintf("heapE%d%s:%s", s.epoch, map[bool]string{true: "s", false: ""}[nativeStrings], sanitize(name)), sortS)
 		e.heapSorts[name] = sortS
 		s.heaps[name] = h
 		return h
@@ -122,6 +122,9 @@ func (e *Exec) freshLeaf(s *State, name string, li leafInfo) *Node {
 }
 
 func (e *Exec) constrainLeaf(s *State, n *Node, t types.Type, sortS string) {
+	if sortS == "String" {
+		return
+	}
 	if sortS == "Str" {
 		l := e.strLen(n)
 		s.assume(And(e.ile(e.idx(0), l), e.ile(l, e.idxBig(maxLen))))
@@ -216,6 +219,8 @@ func zeroOfSort(s string) *Node {
 		return TS.mk("0.0", "Real")
 	case s == "Str":
 		return strEmpty()
+	case s == "String":
+		return smtStringLit("")
 	case s == "Iface":
 		return ifaceNil()
 	case len(s) > 10 && s[:10] == "(_ BitVec ":
@@ -230,6 +235,9 @@ func zeroOfSort(s string) *Node {
 }
 
 func strEmpty() *Node {
+	if nativeStrings {
+		return smtStringLit("")
+	}
 	declStr()
 	return TS.Const("str_empty", "Str")
 }
@@ -690,6 +698,9 @@ func (e *Exec) mergeStates(ss []*State) *State {
 }
 
 func (e *Exec) heap0Name(name string) string {
+	if nativeStrings {
+		return "heap0s:" + sanitize(name)
+	}
 	if e.mode == ModeBV {
 		return "heap0bv:" + sanitize(name)
 	}
